@@ -390,11 +390,19 @@ func supported(ty, agg string) bool {
 }
 
 var floatPool = []float64{0, 1, -1, 2, 0.5, 0.1, 0.2, 0.3, 1e16, -1e16, 3, 1e308, 5e-324, math.Copysign(0, -1), 1.5, 7}
+
+// values whose float64 sums are inexact / order dependent
+var inexactPool = []float64{0.1, 0.2, 0.3, 1e16, -1e16, 1, 1e-9, 3.3, 0.7, -0.1, 1e-7, 123456.789, 1.0 / 3.0, 2.5e15}
 var intPool = []int64{0, 1, -1, 2, 3, -7, 10, 100, math.MaxInt64, math.MinInt64, 1<<53 + 1, 1 << 62}
 var uintPool = []uint64{0, 1, 2, 3, 9, 100, math.MaxUint64, 1 << 63, 1<<53 + 1}
 
-func genVal(w *vh.W, ty string, wild bool) uint64 {
+// mode: 0 small exact values, 1 extremes, 2 (floats) values with inexact sums
+func genVal(w *vh.W, ty string, mode int) uint64 {
 	r := w.Rng
+	wild := mode == 1
+	if ty == "float" && mode == 2 {
+		return math.Float64bits(inexactPool[r.IntN(len(inexactPool))])
+	}
 	switch ty {
 	case "int":
 		if wild {
@@ -418,14 +426,22 @@ func genVal(w *vh.W, ty string, wild bool) uint64 {
 }
 
 // gen: n points from t0 on; gap modes as in c20
-func gen(w *vh.W, n int, t0, every int64, gapMode int, ty string) wmock.Series {
+func gen(w *vh.W, n int, t0, every int64, gapMode int, ty string, forceMode ...int) wmock.Series {
 	r := w.Rng
 	s := wmock.Series{Ty: ty}
 	t := t0
-	wild := r.IntN(4) == 0
+	mode := []int{0, 0, 1, 2}[r.IntN(4)]
+	if ty == "float" {
+		mode = []int{0, 1, 2, 2}[r.IntN(4)]
+	} else if mode == 2 {
+		mode = 0
+	}
+	if len(forceMode) > 0 {
+		mode = forceMode[0]
+	}
 	for i := 0; i < n; i++ {
 		s.T = append(s.T, t)
-		s.V = append(s.V, genVal(w, ty, wild))
+		s.V = append(s.V, genVal(w, ty, mode))
 		var g int64
 		switch gapMode {
 		case 0:
@@ -449,7 +465,7 @@ var aggNames = []string{"count", "sum", "min", "max", "mean", "first", "last"}
 
 func main() {
 	w := vh.New("C41", "From Coq Require Import Floats.SpecFloat.\nFrom Verif Require Import Base.Prelude Model.C20 Model.C41.\nOpen Scope Z_scope.", "case", "check")
-	w.Rule = "one series (0-60 points, some 1100-2300; 5 field types; strictly increasing times, also outside the bounds) behind a fake reads.Store; query bounds placed around the data and around window boundaries (clipped first/last window, bounds inside one window, data before/after the bounds); every in {1,2,3,5,10,60,1000} ns, offset in {0,+-1,every-1,every,every+1,-every-1}; aggregate in count/sum/min/max/mean/first/last (supported for the type), createEmpty on/off, timeColumn in {\"\",_start,_stop}, forceAggregate on/off (all 3 table implementations); arrays of 1..1500 points over 1-3 shards. Hand-picked cases first: >1000 windows with createEmpty for each table kind, bounds inside one window, no data in bounds. Rows of all flux tables are recorded in order; a table that produces more than 3*(windows+points)+3000 rows is reported as never ending. Non-trivial: >=2 points in bounds and >=2 windows in bounds. Distinct: distinct terms."
+	w.Rule = "one series (0-60 points, some 1100-2300; 5 field types; half of the float series draw values with inexact, order-dependent sums {0.1,0.2,0.3,1e16,-1e16,1,1e-9,3.3,..} and half are dense inside wide windows; strictly increasing times, also outside the bounds) behind a fake reads.Store; query bounds placed around the data and around window boundaries (clipped first/last window, bounds inside one window, data before/after the bounds); every in {1,2,3,5,10,60,1000} ns, offset in {0,+-1,every-1,every,every+1,-every-1}; aggregate in count/sum/min/max/mean/first/last (supported for the type), createEmpty on/off, timeColumn in {\"\",_start,_stop}, forceAggregate on/off (all 3 table implementations); arrays of 1..1500 points over 1-3 shards. Hand-picked cases first: >1000 windows with createEmpty for each table kind, bounds inside one window, no data in bounds. Rows of all flux tables are recorded in order; a table that produces more than 3*(windows+points)+3000 rows is reported as never ending. Non-trivial: >=2 points in bounds and >=2 windows in bounds. Distinct: distinct terms."
 	var rc jcase
 	if w.ReplayCase(&rc) {
 		run(w, &rc)
@@ -471,6 +487,21 @@ func main() {
 		{S: wmock.Series{Ty: "int", T: []int64{3, 4, 25}, V: []uint64{7, 8, 9}}, Agg: "first", Bs: 0, Be: 40, Every: 10, CE: true, TC: "_stop", FA: true},
 		{S: wmock.Series{Ty: "int", T: []int64{3, 4, 25}, V: []uint64{7, 8, 9}}, Agg: "first", Bs: 0, Be: 40, Every: 10, CE: false, TC: "", FA: true},
 		{S: wmock.Series{Ty: "int", T: []int64{3, 4, 25}, V: []uint64{7, 8, 9}}, Agg: "last", Bs: 0, Be: 40, Every: 10, CE: false, TC: "_start", FA: true},
+	}
+	fb := func(vs ...float64) []uint64 {
+		var o []uint64
+		for _, v := range vs {
+			o = append(o, math.Float64bits(v))
+		}
+		return o
+	}
+	// float sum/mean with array boundaries inside a window and order-dependent sums
+	for _, a := range []string{"sum", "mean"} {
+		hp = append(hp,
+			jcase{S: wmock.Series{Ty: "float", T: []int64{0, 1, 2}, V: fb(0.1, 0.2, 0.3)}, Agg: a, Bs: 0, Be: 10, Every: 10, CE: false, TC: "", Sizes: []int{1, 2}},
+			jcase{S: wmock.Series{Ty: "float", T: []int64{0, 1, 2, 3}, V: fb(1e16, 1, -1e16, 1)}, Agg: a, Bs: -5, Be: 25, Every: 10, CE: true, TC: "_stop", Sizes: []int{1, 3}},
+			jcase{S: wmock.Series{Ty: "float", T: []int64{-3, -2, 1, 2, 3, 4, 6, 7, 8, 11, 12, 13, 14},
+				V: fb(0.1, 0.2, 0.3, 0.7, 1e-9, 3.3, 1e16, 1, -1e16, 1.0/3.0, 0.1, 0.2, 0.3)}, Agg: a, Bs: -4, Be: 15, Every: 5, Off: 1, CE: a == "sum", TC: "", Sizes: []int{1, 2, 2, 3, 2, 3}, Shards: []int{2}})
 	}
 	for i := range hp {
 		run(w, &hp[i])
@@ -501,11 +532,24 @@ func main() {
 			n = 60 + r.IntN(200)
 		}
 		ty := tys[r.IntN(len(tys))]
+		denseFloat := ty == "float" && !big && r.IntN(2) == 0
+		if denseFloat { // dense points with inexact sums inside wide windows
+			gm = 0
+			if n < 4 {
+				n = 4 + r.IntN(20)
+			}
+			if every < 10 {
+				every = []int64{10, 60}[r.IntN(2)]
+			}
+		}
 		t0 := []int64{0, -50, 3, 1000, -1000000007}[r.IntN(5)]
 		if r.IntN(3) == 0 {
 			t0 = off + every*int64(r.IntN(5)-2) + int64(r.IntN(3)-1)
 		}
 		s := gen(w, n, t0, every, gm, ty)
+		if denseFloat {
+			s = gen(w, n, t0, every, gm, ty, 2)
+		}
 		// bounds: around the data, boundary-biased
 		lo, hi := t0, t0+every
 		if n > 0 {
@@ -540,12 +584,19 @@ func main() {
 				as = append(as, a)
 			}
 		}
-		c := jcase{S: s, Agg: as[r.IntN(len(as))], Bs: bs, Be: be, Every: every, Off: off,
+		agg := as[r.IntN(len(as))]
+		if denseFloat && r.IntN(3) != 0 {
+			agg = []string{"sum", "mean"}[r.IntN(2)]
+		}
+		c := jcase{S: s, Agg: agg, Bs: bs, Be: be, Every: every, Off: off,
 			CE: r.IntN(2) == 0, TC: []string{"", "", "_start", "_stop"}[r.IntN(4)], FA: r.IntN(5) == 0}
 		if c.FA && c.TC == "" && r.IntN(2) == 0 {
 			c.TC = "_stop"
 		}
 		mx := 1 + r.IntN(8)
+		if denseFloat {
+			mx = 4
+		}
 		if n > 50 {
 			mx = 1 + r.IntN(1500)
 		}
